@@ -427,14 +427,13 @@ def uncertain_is_not_built_directly(ctx, rid):
         return
     for sw, es in sws:
         nt = es[1].get(dv["NeedTargets"], es[2])
-        for k, c in common.ordinal_keys([("start_self", c) for c in starts]):
-            under_nt = jba.edge_dominates((sw, nt), c)
-            if not under_nt:
-                continue
-            ctx.ob(rid, "%s|NeedTargets-arm|uncertain-verdict-builds-the-target" % J.key, False, where=ctx.where(J, c),
-                   detail="on the NeedTargets arm (REDO_NO_OOB side: the second phase of redo-unlocked and everything below it) the target is built at once although its checksummed dependencies are only *possibly* changed: with checksummed targets nested two deep (top -> mid -> leaf) a change of leaf that leaves mid's checksum unchanged still re-runs top.do")
-    ctx.ob(rid, "%s|Dirty-arm-builds" % J.key, any(jba.edge_dominates((sw, es[1].get(dv["Dirty"], es[2])), c) for sw, es in sws for c in starts), where=J.span,
-           detail="the Dirty arm runs the .do")
+        dt = es[1].get(dv["Dirty"], es[2])
+        p_nt = jba.path([nt], starts, incl=True) if nt != dt else None
+        if p_nt is not None:
+            ctx.ob(rid, "%s|NeedTargets-arm|uncertain-verdict-builds-the-target" % J.key, False, where=ctx.where(J, p_nt[-1]),
+                   detail="on the NeedTargets arm (REDO_NO_OOB side: the second phase of redo-unlocked and everything below it) the target is built at once although its checksummed dependencies are only *possibly* changed: with checksummed targets nested two deep (top -> mid -> leaf) a change of leaf that leaves mid's checksum unchanged still re-runs top.do",
+                   witness=p_nt)
+        ctx.ob(rid, "%s|Dirty-arm-builds" % J.key, jba.path([dt], starts, incl=True) is not None, where=ctx.where(J, sw), detail="the Dirty arm runs the .do")
 
 
 # ------------------------------------------------------------------------------------------------
